@@ -7,6 +7,7 @@ CONSTANTS
   FixEnqueue = FALSE
   FixBatch = FALSE
   LossySend = FALSE
+  HasKeepalive = TRUE
   Eager = TRUE
 VIEW GenView
 INVARIANTS TrapOutOfSync
